@@ -495,7 +495,7 @@ class Sim(object):
         return [v for n, v in self.defaults if n == cn]
 
     def view_list(self, cn, k):
-        vals = self.store.get(cn, []) or self.default_lines(cn)
+        vals = [v for v in self.store.get(cn, []) if v] or self.default_lines(cn)
         if k in ('KLine', 'KPorts'):
             return [('s', _strip(v)) for v in vals]
         if k == 'KComma':
@@ -572,3 +572,32 @@ def finding_flags(case):
     for op in case['ops']:
         s.step(op)
     return s.flags()
+
+
+# ------------------------------------------------------------------ mirror of the predicates of Spec/C11.v
+def multi_then_keyword(items):
+    seen = []
+    prev = None
+    for k, v in items:
+        if v is not None:
+            seen.append(k)
+            prev = k
+        else:
+            if prev is not None and seen.count(prev) > 1:
+                return True
+            prev = None
+    return False
+
+
+def c11_flags(case):
+    table = [tuple(r) for r in case['table']]
+    opts = options(table)
+    ports = [cn for cn, k in opts if k == 'KPorts']
+    store = case['store']
+    f1 = any(not (len(store.get(cn, [])) == 1 and store[cn][0] not in ('auto', '')) for cn in ports)
+    pl = [p.lower() for p in ports]
+    f2 = any(k.lower() in pl for o in case['ops'] if o[0] == 'event' for k, _ in o[1])
+    f3 = any(multi_then_keyword(o[1]) for o in case['ops'] if o[0] == 'event')
+    dfl = case['defaults'] or []
+    f4 = any(k == 'KComma' and any(n == cn and ',' in v for n, v in dfl) for cn, k in opts)
+    return [f1, f2, f3, f4] + finding_flags(case)
